@@ -435,9 +435,12 @@ func c09Limits(t *Trace, l *Layout, st *Stats) *Violation {
 	// limits configured as exactly 0: nothing fits, every entry point refuses the header
 	lims = append(lims, lim{"limits=0", ReadOpts{ZeroEOF: zero, ZeroLimits: true}, false, verifbridge.ErrHeaderTooLarge})
 	for _, lm := range lims {
-		for _, entry := range []string{"blockreader", "newreader", "v1", "readonly", "openreadable", "loadindex:sorted"} {
+		for _, entry := range []string{"blockreader", "newreader", "v1", "readonly", "openreadable", "loadindex:sorted", "replacerootsinfile"} {
 			if entry == "v1" && (l.Spec.V2 || len(l.Roots) == 0 || lm.opts.ZeroLimits) {
 				continue
+			}
+			if entry == "replacerootsinfile" && (lm.opts.MaxSection > 0 || lm.accept) {
+				continue // root replacement buffers the header: the header-too-large cases only (it may fail for other reasons)
 			}
 			if lm.opts.MaxSection > 0 && (entry == "loadindex:sorted") {
 				continue // index generation skips over section bodies, it does not buffer them
